@@ -134,7 +134,7 @@ ADDED = {
     "C19": "Also with 0..9 unknown fields in front of and 0..300 between the two occurrences of a repeated Authorization parameter; repeated X-Amz-* parameters with either occurrence's name spelled with escapes. A first token of 4..64 KiB; first Authorization / date header padded by 8193 / 70000 bytes. Each X-Amz-* parameter twice among 10 .. 1000 (thorough every count 0 .. 300, up to 2000) other parameters in four layouts. The last occurrence of each parameter between a field that opens a quoted value and one that closes it (4 patterns).",
     "C02": "Header sets include an HTTP-date or stale ISO Date header, Expires, X-Amz-Expires and Content-Length next to X-Amz-Date, and seven names that are prefixes of one another.",
     "C06": "Secret lengths 0..1100 and around 2^16 and 2^20 for all nine capacities. Plus every sequence of 1..3 (thorough 4) derivations on one thread over 12 secrets that are prefixes / NUL-extensions / case variants of one another x 2 dates, each judged alone. Fills beginning with the literals 'AWS4' / 'aws4_request'. Every AWS region code and pseudo-region (62) x every service signing name (70) x 2 secrets. Regions and services made of an ASCII run of every length 0..140 followed by 2-, 3- and 4-byte characters.",
-    "C08": "Plus 45 request targets of every form (origin, absolute, authority, asterisk, empty) x form bodies x content types x all four option sets, and every empty / one-byte / two-byte value of Content-Type parameters and Authorization fields; server clocks and request dates at the edges of the time types. SignedHeaders lists of 10..104 entries differing in case only, in structured arrangements, rotations and fixed shuffles. Authorization headers made of every sequence of up to 4 (5) fields over ten kinds, with the logger formatting. The child runs under a 12 GiB address-space limit and a wall-clock limit (unbounded allocation and a case that never returns are violations, not machine failures). Requests with 24574 / 24575 / 24576 distinct header names (the most http admits) and 32700 values of one name, plain and as folded form POSTs with Content-Length.",
+    "C08": "Plus 45 request targets of every form (origin, absolute, authority, asterisk, empty) x form bodies x content types x all four option sets, and every empty / one-byte / two-byte value of Content-Type parameters and Authorization fields; server clocks and request dates at the edges of the time types. SignedHeaders lists of 10..104 entries differing in case only, in structured arrangements, rotations and fixed shuffles. Authorization headers made of every sequence of up to 4 (5) fields over ten kinds, with the logger formatting. The child runs under a 12 GiB address-space limit and a wall-clock limit (unbounded allocation and a case that never returns are violations, not machine failures). Requests with 24574 / 24575 / 24576 distinct header names (the most http admits) and 32700 values of one name, plain and as folded form POSTs with Content-Length. An ASCII run of every length 0..300 followed by 2-, 3- and 4-byte characters in each of 11 text inputs, once plausible and once made to be refused.",
     "C09": "Plus paths behind a first segment padded to 47 lengths (0..5000 bytes) canonicalised in both modes back to back in both orders, and every ordered pair over 78 related (path, mode) symbols on one thread; first segments of 10 000 .. 200 000 bytes (plain, to-be-escaped, escaped) followed by dot-segment tails; the end-to-end path sweep also with folded form bodies. 11 methods x 5 request targets ('*' among them). 8 paths whose normal form differs between the modes x both modes x the server configured for every AWS region (62) x service signing name (70, the S3 family included) x carrier. Climbing, plain and relative paths with an ASCII run of every length 0..300 followed by 2-, 3- and 4-byte characters, both modes.",
     "C10": "Plus every ordered pair over 58 related query strings (prefixes, case / escape / separator variants, long strings differing at the end) back to back on one thread; the end-to-end sweep splits every list between URL and folded form body. Twelve folded form bodies with a raw byte-order mark, zero-width marks, NUL or line ends. 30 folded form bodies of 65 000 .. 1 048 577 bytes that are two pairs and otherwise '&' runs.",
     "C11": "Plus a form POST signing 11 entity / framing / payload-digest headers under all four option sets: as signed, 8 replacement values, an added value and removal of each (incl. Cookie / Accept / Cache-Control with two values). Two or three signed names sharing a prefix and parting ways at every ordered pair over 21 header-name characters (all 15 punctuation marks), 3 shapes, sent in lower / upper case, both carriers.",
@@ -144,7 +144,7 @@ ADDED = {
     "C15": "Body lengths 11 .. 65537 bytes; the whole product once per logger maximum level (quick: Off, Debug, Trace; thorough: all six); four request forms incl. an absolute-form target without a Host header and ':authority' signed; every second request with a second Authorization / X-Amz-Security-Token header. Folded requests carry accurate Content-Length / Content-MD5 / Content-Encoding / X-Amz-Content-Sha256 headers. Three request targets without a path (authority-form, absolute-form without path, asterisk-form) x methods x versions x body types x options. Folded requests over three more paths with empty / dot segments (one beginning with '//'): the returned path has the normal form of the submitted one under the server's mode.",
     "C16": "Plus every ordered pair over ~70 related strings (well-formed timestamps and their look-alikes) parsed back to back on one thread, and the full product of boundary values of month/day x hour x minute x second x zone. Validations differing only in the timestamp multiplexed on one thread in every order of polls. Five timestamps followed by one of 10 separators and a second timestamp (itself once or twice, or another one). Timestamps with each character written as a percent-escape and with truncated escapes appended.",
     "C17": "Refused key constructions (capacity one short, stray newline, small capacities, long input), shortcut derivations and the records logged meanwhile are observables too; the signature that would have been accepted for a refused request is also searched in every later validation's observables; a provider error whose Debug (not Display) shows the key record; the authenticator rendered again after prevalidate / validate_signature ran on it. Wrong signatures with request and server clock on different sides of a day / month / leap-day / year boundary. The key answered together with each of 7 identities (user, assumed role, federated user, root, service, canonical user, user + role) by a store indexed by the access key alone. A run of 2^16 + 300 (thorough 2^20 + 300) refusals with ever different wrong signatures in one process, every error and record at Debug level or above searched for the correct signature.",
-    "C18": "The corpus includes requests under server clocks 10 minutes apart (both edges of each window) and under other server configurations, and pairs of equally long large bodies with different content validated back to back, and four other renderings of the timestamp. Every sequence of up to 2 (thorough 3) operations x 3 configurations x 5 clocks on one authenticator object. Every sequence of up to 4 (5) steps over {validate one of three requests, add_* / remove_* x 3 categories x 2 spellings} on ONE VecSignedHeaderRequirements object, each validation judged by the reference for what is declared at that moment. Requests on and next to both window edges against a provider that really takes 1.1 / 2.1 (3.1) s: same outcome as with one that answers at once.",
+    "C18": "The corpus includes requests under server clocks 10 minutes apart (both edges of each window) and under other server configurations, and pairs of equally long large bodies with different content validated back to back, and four other renderings of the timestamp. Every sequence of up to 2 (thorough 3) operations x 3 configurations x 5 clocks on one authenticator object. Every sequence of up to 4 (5) steps over {validate one of three requests, add_* / remove_* x 3 categories x 2 spellings} on ONE VecSignedHeaderRequirements object, each validation judged by the reference for what is declared at that moment. Requests on and next to both window edges against a provider that really takes 1.1 / 2.1 (3.1) s: same outcome as with one that answers at once. A history of 2^16 + 300 (thorough 2^18 + 300) validations cycling through the corpus, each outcome equal to the fresh-process outcome.",
 }
 TWICE = ["C01", "C02", "C03", "C04", "C05", "C06", "C09", "C10", "C11", "C12", "C13", "C14", "C16", "C19"]
 AMBIENT = " The whole exploration is carried out twice: (A) no logger output, providers answering at once; (B) a logger at Trace level (record arguments evaluated, Debug-and-above records formatted), the standard provider strict / not ready at once / answering late, each option that cannot matter for the request (S3 mode, form folding) switched the other way, unsigned bystander headers added where absent (ten fixed ones with a meaning elsewhere — X-Amz-Expires, X-Amz-Content-Sha256, an accurate or zero Content-Length, Content-Encoding, Transfer-Encoding, X-Forwarded-*, X-HTTP-Method-Override — six rotating out of thirty standard request headers, and Connection / Trailer / Vary naming the request's other headers), every header value flagged sensitive for a third of the requests, and two thirds of the origin-form request targets rewritten in absolute form and presented as HTTP/2 or HTTP/3."
